@@ -9,6 +9,7 @@ import Enc.Lemmas.ProtoDepth
 import Enc.Lemmas.ProtoNamedMain
 import Enc.Lemmas.ProtoArray
 import Enc.Lemmas.ProtoPtrsMain
+import Enc.Lemmas.ProtoMsgRoundTrip
 /-!
 # C12 — proto bytes are standard protobuf wire format, both ways
 Property theorems only.
@@ -55,7 +56,8 @@ scalars, []byte, byte arrays and messages; field numbers 1…65535, pairwise dis
 `tagAgree` (model and specification read the struct tag alike) is proved for untagged fields (`tagAgree_empty`) and is
 a decidable hypothesis for tagged ones. Maps: `tyOKM` below; defined (named) types: `tyOK2`/`tyOKM2`; repeated pointers `[]*T`
 and pointer chains `**T`: `tyOK3`/`tyOKM3` at the end.
-Outside the universe: `*[]T`, RawMessage (differential only) and the shapes of the known findings. -/
+Outside the universe: `*[]T` and the shapes of the known findings; user-defined types (RawMessage, Message / custom
+implementers): `tyOK4`/`tyOKM4` at the end. -/
 
 open Lemmas.ProtoWire in
 /-- **MAIN (bytes).** What `Marshal` writes for a message is exactly the concatenation of the reference encodings of its
@@ -364,5 +366,132 @@ of order, non-minimal varint): `{L: {&3}, P: &&5}` -/
 example : unmarshal (.struct exQFields) [0x10, 0x85, 0x00, 0x08, 0x03]
     = .ok (.struct (Vals.ofList [.list (Vals.ofList [.ptr (.int 3)]), .ptr (.ptr (.int 5))])) :=
   unmarshal_of_reference_decode_ptrs exQFields exQ_hyps.1 _ _ exQ_hyps.2.2.2.2.2 exQ_ref
+
+/-! ## user-defined types (proto.Message implementers, gogo-style custom types, RawMessage) as OPAQUE leaves
+
+Universes `tyOK4 ⊇ tyOK3`, `tyOKM4 ⊇ tyOKM3` and the model with the user's methods as parameters: see Props/C03. On the wire a user
+value is ONE length-delimited record whose payload is what the user's `Marshal` wrote — exactly a protobuf `bytes` field (or an
+embedded message, if the user's bytes are one), which is how the reference decoder reads it (`Spec.Protobuf`: a
+`.named "RawMessage" _` leaf is a byte sequence). The record lists are those of the relabelled type on the normalised value
+(`allRecords4 wz fs vs = allRecords3 wz (obFields fs) (ovFields fs vs)`). Proofs: Enc/Lemmas/ProtoOpaque*.lean (translation),
+ProtoMsgRoundTrip.lean (the user's methods on top). -/
+
+open Lemmas.ProtoWire Lemmas.ProtoOpaque in
+/-- bytes, payload level -/
+theorem struct_bytes_opaque (fs : Fields) (vs : Vals) (fl : Flags)
+    (hty : tyOK4 (.struct fs) = true) (hp : ptrsOKs4 fs vs = true) (hv : hasTypes4 fs vs = true)
+    (hz : fl.zigzag = false) (hlen : (encode (.struct (fieldsOf 1 fs)) (.struct vs) fl).length < 2 ^ 64) :
+    encode (.struct (fieldsOf 1 fs)) (.struct vs) fl = encRecs (allRecords4 fl.wantzero fs vs) :=
+  Lemmas.ProtoOpaque.struct_bytes_opaque fs vs fl hty hp hv hz hlen
+
+open Lemmas.ProtoWire Lemmas.ProtoOpaque in
+/-- bytes, with maps -/
+theorem struct_bytes_maps_opaque (fs : Fields) (vs : Vals) (fl : Flags)
+    (hty : tyOKM4 (.struct fs) = true) (hp : ptrsOKs4 fs vs = true) (hv : hasTypesM4 fs vs = true)
+    (hz : fl.zigzag = false) (hlen : (encode (.struct (fieldsOf 1 fs)) (.struct vs) fl).length < 2 ^ 64) :
+    encode (.struct (fieldsOf 1 fs)) (.struct vs) fl = encRecs (allRecordsM4 fl.wantzero fs vs) :=
+  Lemmas.ProtoOpaque.struct_bytes_maps_opaque fs vs fl hty hp hv hz hlen
+
+open Lemmas.ProtoOpaque in
+/-- the field is ONE LEN record whose payload is the leaf's bytes — for a user type of ANY underlying kind `u`, any payload
+(the empty one included: `0a 00`, never elided) -/
+theorem opaque_field_record (u : Ty) (p : Bytes) (fl : Flags) :
+    encode (.struct (fieldsOf 1 (leafF u))) (.struct (.cons (.str p) .nil)) fl
+        = encodeTag 1 .varlen ++ encodeVarint (BitVec.ofNat 64 p.length) ++ p
+    ∧ encode (.struct (fieldsOf 1 (leafF u))) (.struct (.cons .nil .nil)) fl = encodeTag 1 .varlen ++ [0] :=
+  ⟨Lemmas.ProtoOpaque.opaque_field_record u p fl, Lemmas.ProtoOpaque.opaque_nil_field_record u fl⟩
+
+open Lemmas.ProtoWire Lemmas.ProtoOpaque Lemmas.ProtoMsg in
+/-- **bytes with the user's methods**: under the `Marshal` contract, what `Marshal` writes for a message with user types is
+the concatenation of the reference encodings of the records of its payload-level value (`absFs`: every user value replaced by
+what its `Marshal` wrote) -/
+theorem struct_bytes_opaque_user (ops : UserOps) (fs : Fields) (us : Vals)
+    (hc : LeavesOKFs ops (fieldsOf 1 fs) us) (hty : tyOKM4 (.struct fs) = true)
+    (hp : ptrsOKs4 fs (absFs ops (fieldsOf 1 fs) us) = true)
+    (hv : hasTypesM4 fs (absFs ops (fieldsOf 1 fs) us) = true)
+    (hlen : (marshal (.struct fs) (.struct (absFs ops (fieldsOf 1 fs) us))).length < 2 ^ 64) :
+    marshalUsr ops (.struct fs) (.struct us) = .ok (encRecs (allRecordsM4 false fs (absFs ops (fieldsOf 1 fs) us))) :=
+  Lemmas.ProtoMsg.struct_bytes_usr ops fs us hc hty hp hv hlen
+
+open Lemmas.ProtoOpaque in
+/-- the reference decoder reads what Marshal writes: it sees a bytes field with the leaf's payload (payload level; comparison
+by `canonical (ob t)`, which treats a leaf as the byte string it is — see Props/C03) -/
+theorem reference_decodes_marshal_partial_opaque (fs : Fields) (v : Val)
+    (hty : tyOK4 (.struct fs) = true) (hp : ptrsOK4 (.struct fs) v = true) (hv : hasType4 (.struct fs) v = true)
+    (hne : noEmptyPtr4 (.struct fs) v = true) (hlen : (marshal (.struct fs) v).length < 2 ^ 64) :
+    (Spec.Protobuf.decode (.struct fs) (marshal (.struct fs) v)).map (Spec.Protobuf.canonical (ob (.struct fs)))
+      = some (Spec.Protobuf.canonical (ob (.struct fs)) (ov (.struct fs) v)) :=
+  Lemmas.ProtoOpaque.reference_decodes_marshal_partial_opaque_ob fs v hty hp hv hne hlen
+
+open Lemmas.ProtoOpaque in
+/-- … with maps -/
+theorem reference_decodes_marshal_maps_partial_opaque (fs : Fields) (v : Val)
+    (hty : tyOKM4 (.struct fs) = true) (hp : ptrsOK4 (.struct fs) v = true) (hv : hasTypeM4 (.struct fs) v = true)
+    (hne : valOKM4 (.struct fs) v = true) (hlen : (marshal (.struct fs) v).length < 2 ^ 64) :
+    (Spec.Protobuf.decode (.struct fs) (marshal (.struct fs) v)).map (Spec.Protobuf.canonical (ob (.struct fs)))
+      = some (Spec.Protobuf.canonical (ob (.struct fs)) (ov (.struct fs) v)) :=
+  Lemmas.ProtoOpaque.reference_decodes_marshal_maps_partial_opaque_ob fs v hty hp hv hne hlen
+
+open Lemmas.ProtoOpaque in
+/-- … in the comparison form of the other C12 theorems, for leaves of scalar / bytes kind (`opaquePlain`; RawMessage is one) -/
+theorem reference_decodes_marshal_maps_partial_opaque_plain (fs : Fields) (v : Val)
+    (hty : tyOKM4 (.struct fs) = true) (hpl : opaquePlain (.struct fs) = true)
+    (hp : ptrsOK4 (.struct fs) v = true) (hv : hasTypeM4 (.struct fs) v = true)
+    (hne : valOKM4 (.struct fs) v = true) (hlen : (marshal (.struct fs) v).length < 2 ^ 64) :
+    (Spec.Protobuf.decode (.struct fs) (marshal (.struct fs) v)).map (Spec.Protobuf.canonical (.struct fs))
+      = some (Spec.Protobuf.canonical (.struct fs) v) :=
+  Lemmas.ProtoOpaque.reference_decodes_marshal_maps_partial_opaque fs v hty hpl hp hv hne hlen
+
+open Lemmas.ProtoOpaque Lemmas.ProtoMsg in
+/-- **the reference decoder reads what `Marshal` writes with the user's methods**: every user value as a bytes field holding
+what its `Marshal` wrote -/
+theorem reference_decodes_marshal_opaque (ops : UserOps) (fs : Fields) (u : Val)
+    (hc : LeavesOK ops (codecOf (.struct fs)) u) (hty : tyOKM4 (.struct fs) = true)
+    (hp : ptrsOK4 (.struct fs) (absV ops (codecOf (.struct fs)) u) = true)
+    (hv : hasTypeM4 (.struct fs) (absV ops (codecOf (.struct fs)) u) = true)
+    (hne : valOKM4 (.struct fs) (absV ops (codecOf (.struct fs)) u) = true)
+    (hlen : (marshal (.struct fs) (absV ops (codecOf (.struct fs)) u)).length < 2 ^ 64) :
+    ∃ b, marshalUsr ops (.struct fs) u = .ok b
+      ∧ (Spec.Protobuf.decode (.struct fs) b).map (Spec.Protobuf.canonical (ob (.struct fs)))
+          = some (Spec.Protobuf.canonical (ob (.struct fs)) (ov (.struct fs) (absV ops (codecOf (.struct fs)) u))) :=
+  Lemmas.ProtoMsg.reference_decodes_marshal_usr ops fs u hc hty hp hv hne hlen
+
+open Lemmas.ProtoOpaque in
+/-- both ways, second half: every byte string the reference accepts for a message type with user types, `Unmarshal` (payload
+level) reads alike -/
+theorem unmarshal_of_reference_decode_opaque (fs : Fields) (hty : tyOK4 (.struct fs) = true) (b : Bytes) (v : Val)
+    (hdep : Codec.nesting (codecOf (.struct fs)) ≤ Gen.c_proto_maxDepth)
+    (h : Spec.Protobuf.decode (.struct fs) b = some v) : unmarshal (.struct fs) b = .ok v :=
+  Lemmas.ProtoOpaque.unmarshal_of_reference_decode_opaque fs hty b v hdep h
+
+open Lemmas.ProtoLiberal Lemmas.ProtoOpaque Lemmas.ProtoPtrs in
+/-- … and the exact characterisation of the difference -/
+theorem unmarshal_iff_reference_decode_opaque (fs : Fields) (hty : tyOK4 (.struct fs) = true)
+    (hna : noArr4 (.struct fs) = true) (b : Bytes) (v : Val)
+    (hdep : Codec.nesting (codecOf (.struct fs)) ≤ Gen.c_proto_maxDepth)
+    (hz : ¬ ZeroNum (rfields (obFields fs)) b) :
+    unmarshal (.struct fs) b = .ok v ↔ Spec.Protobuf.decode (.struct fs) b = some v :=
+  Lemmas.ProtoOpaque.unmarshal_iff_reference_decode_opaque fs hty hna b v hdep hz
+
+open Lemmas.ProtoOpaque in
+/-- … with maps -/
+theorem unmarshal_of_reference_decode_maps_partial_opaque (fs : Fields) (hty : tyOKM4 (.struct fs) = true) (b : Bytes)
+    (v : Val) (hne : noEmptyEntry4 (.struct fs) b = true)
+    (hdep : Codec.nesting (codecOf (.struct fs)) ≤ Gen.c_proto_maxDepth)
+    (h : Spec.Protobuf.decode (.struct fs) b = some v) : unmarshal (.struct fs) b = .ok v :=
+  Lemmas.ProtoOpaque.unmarshal_of_reference_decode_maps_partial_opaque fs hty b v hne hdep h
+
+open Lemmas.ProtoOpaque in
+/-- non-vacuity: the example type of C03 with user types in every admissible position (`exOFields`, struct-kind `ZRec`
+included), and `struct{ R RawMessage; L []RawMessage; LP []*RawMessage; A int32 }` for the `opaquePlain` form -/
+example : tyOKM4 (.struct exOFields) = true
+    ∧ ptrsOK4 (.struct exOFields) (.struct exOVals) = true
+    ∧ hasTypeM4 (.struct exOFields) (.struct exOVals) = true
+    ∧ valOKM4 (.struct exOFields) (.struct exOVals) = true
+    ∧ (marshal (.struct exOFields) (.struct exOVals)).length < 2 ^ 64
+    ∧ Codec.nesting (codecOf (.struct exOFields)) ≤ Gen.c_proto_maxDepth := exO_hyps
+
+open Lemmas.ProtoOpaque in
+example : tyOK4 (.struct exQOFields) = true ∧ opaquePlain (.struct exQOFields) = true := ⟨exQO_ty, exQO_plain⟩
 
 end Enc.Props.C12
